@@ -1,6 +1,7 @@
 package main
 
 import (
+	"strings"
 	"encoding/binary"
 	"errors"
 	"fmt"
@@ -105,8 +106,32 @@ func jt1078Decode(data []byte) (ans string) {
 	return canonPacket(p, rest)
 }
 
+// jt1078Reuse decodes a whole stream from the front with ONE Packet reused for every step
+// (p.Decode(data) in a for loop, as a stream consumer would): "ok <packet> | <packet> ..." or the
+// first error.
+func jt1078Reuse(data []byte) (ans string) {
+	defer func() {
+		if r := recover(); r != nil {
+			ans = "panic"
+		}
+	}()
+	p := jt1078.NewPacket()
+	rest := Exact(data)
+	var out []string
+	for len(rest) > 0 {
+		r2, err := p.Decode(Exact(rest))
+		if err != nil {
+			return jt1078ErrCode(err)
+		}
+		out = append(out, strings.TrimPrefix(canonPacket(p, nil), "ok "))
+		rest = r2
+	}
+	return "ok " + strings.Join(out, " | ")
+}
+
 func main() {
 	RegisterOp("jt1078", func(a []string) string { return jt1078Decode(Unhx(a[0])) })
+	RegisterOp("jt1078reuse", func(a []string) string { return jt1078Reuse(Unhx(a[0])) })
 	Main("C17", c17)
 }
 
@@ -194,10 +219,35 @@ func c17(c *Ctx) {
 			stream = append(stream, s.bytes()...)
 		}
 		rest := stream
+		var all []string
 		for j := 0; j < k; j++ {
 			want := rest[len(specs[j].bytes()):]
 			one(rest, specs[j].canon(want), "stream")
+			all = append(all, strings.TrimPrefix(specs[j].canon(nil), "ok "))
 			rest = want
+		}
+		// the same stream consumed with ONE reused Packet: every packet must still be the standard's
+		// reading (no field may survive from the previous packet)
+		req := "jt1078reuse " + Hx(stream)
+		ans := c.Do(req, true)
+		c.Count("reuse:" + firstWord(ans))
+		if want := "ok " + strings.Join(all, " | "); ans != want {
+			c.Violate(Violation{Signature: "C17/stream_reused_packet", What: "a stream decoded with one reused Packet differs from the standard's reading",
+				Input: req, Observed: ans, Required: want})
+		}
+	}
+	// pairs (a, b) of every data type with one reused Packet: nothing of a may show in b
+	for a := 0; a < 16; a++ {
+		for b := 0; b < 16; b++ {
+			sa, sb := randSpec(uint8(a), 2), randSpec(uint8(b), 1)
+			stream := append(sa.bytes(), sb.bytes()...)
+			req := "jt1078reuse " + Hx(stream)
+			ans := c.Do(req, true)
+			want := "ok " + strings.TrimPrefix(sa.canon(nil), "ok ") + " | " + strings.TrimPrefix(sb.canon(nil), "ok ")
+			if ans != want {
+				c.Violate(Violation{Signature: "C17/stream_reused_packet", What: "a stream decoded with one reused Packet differs from the standard's reading",
+					Input: req, Observed: ans, Required: want})
+			}
 		}
 	}
 	// (4) arbitrary byte strings
